@@ -79,7 +79,7 @@ def native_accuracy(n, kind, scale, root, dtname, cfgname, seed, eps_ratio=None)
     eps = 1e-3 * scale if dtname == "f32" else 1e-6 * scale
     if eps_ratio is not None:  # epsilon comparable to / larger than ||A||_F (small-scale or low-rank factors)
         eps = eps_ratio * float(A64.norm())
-    cfg = dict(eigen=EigenConfig(), stab=EigenConfig(enhance_stability=True), newton=CoupledNewtonConfig(max_iterations=200, tolerance=1e-6 if dtname == "f32" else 1e-10),
+    cfg = dict(eigen=EigenConfig(), stab=EigenConfig(enhance_stability=True, exponent_multiplier=1.5), newton=CoupledNewtonConfig(max_iterations=200, tolerance=1e-6 if dtname == "f32" else 1e-10),
                higher=CoupledHigherOrderConfig(max_iterations=100, tolerance=1e-7 if dtname == "f32" else 1e-12))[cfgname]
     if cfgname == "newton" and Fraction(root).denominator != 1:
         return None
